@@ -8,8 +8,8 @@ HERE = os.path.dirname(os.path.dirname(os.path.abspath(__file__)))
 SYS_NOTE = ('bounded: <= 3 simulators, K steps per simulator (2-3), D early deliveries (0 quick, <= 1 thorough), the curated and generated '
             'topology families of vk/topo.py; unbounded: step offsets, output times, until and shift amounts where marked symbolic. '
             'Trusts asyncio, heapq, z3. Environment stubs (oracle proxy/loop, salted SimRunner hash, progress-bar functions, symbolic-aware int) '
-            'are listed in the evidence. Remote byte transport (sockets, JSON) is outside the claim: its scheduling effect is modelled by '
-            'parked replies released in a solver-chosen order.')
+            'are listed in the evidence. Sockets and JSON text are outside the claim: the scheduling effect of remoteness is modelled by '
+            'parked replies released in a solver-chosen order (C05 additionally runs a family behind the in-memory remote transport of vk.remote).')
 SYS_TECH = 'symbolic execution of the real World.run()/scheduler with z3 (own executor) under a solver-driven event loop; reference monitor in tiered time; concrete replay'
 
 CHECKS = {
@@ -77,20 +77,20 @@ KERNEL['C09'] = {
 KERNEL['C16'] = {
     'text': 'system runs of the real scheduler with A (time-based) and 1-2 generator agents connected with async_requests=True: the solver decides which get_data/set_data requests are made, all step sizes and when each request and reply is delivered; on every path a value set by an agent appears in exactly the next step of A under the right source id and never again, A never begins a later step while an agent step is unfinished (lazy on and off), and requests without an async connection make run() fail with ScenarioError',
     'ref': 'DESIGN.md section 5 C16',
-    'note': 'agents <= 2, K <= 3 (thorough 4), in-process generator agents with a parked latency point before every request; remote agents outside; get_data values not judged',
+    'note': 'agents <= 2, K <= 3 (thorough 4), in-process generator agents with a parked latency point before every request; agents also behind the in-memory remote transport (vk.remote: real RemoteProxy/Channel/run_simulator; sockets and JSON text outside); get_data values not judged',
     'tech': SYS_TECH,
 }
 KERNEL['C14'] = {
     'text': 'system runs of the real World.run() in which one simulator fails at a solver-chosen request index (setup_done, each step, each get_data) by a handler exception or a closed-connection exception from send(), before or instead of the reply: on every path run() ends with an exception after finitely many deliveries, every other simulator is finalized exactly once and gets no request afterwards, the loop is closed and no task is pending when it is closed; all reply orders including replies arriving during shutdown',
     'ref': 'DESIGN.md section 5 C14',
-    'note': 'in-process observables only: process death, sockets, child processes and the RemoteProxy reader task are outside (I/O, nothing for a solver to decide); N=2 (thorough 3), K=2',
+    'note': 'in-process runs plus runs behind the in-memory remote transport (vk.remote: real start_connect/RemoteProxy/Channel/stream classes/run_simulator on in-memory transports with a virtual clock; a process exit is its connection closing); operating-system processes and sockets, the cmd starter and spontaneous ConnectionResetErrors are outside; N=2 (thorough 3), K=2',
     'tech': SYS_TECH + '; fault point as a symbolic request index',
 }
 
 KERNEL['C04'] = {
     'text': '2-safety by self-composition: two runs of the real World.run() inside one symbolic path, the canonical configuration (all synchronous, lazy on, cache on, debug off, start order as written) and one variant (every transport-mode assignment with solver-chosen delivery order, cache off, lazy off, debug on, reversed start order, hash salt; thorough: combined and D=1), sharing the symbolic simulator behaviour; z3 decides equality of the per-simulator (time, inputs) sequences (times as terms, inputs with provenance tokens)',
     'ref': 'DESIGN.md section 5 C04',
-    'note': SYS_NOTE + ' The local/remote dimension is covered as far as scheduling goes (a remote simulator is an asynchronous one); the byte path of the remote transport is outside.',
+    'note': SYS_NOTE + ' The local/remote dimension: asynchronous in-process transport in every job, and a variant behind the in-memory remote transport (vk.remote: everything above the socket and the JSON text is the real code); sockets, subprocesses and JSON text are outside.',
     'tech': SYS_TECH + '; self-composition (two runs per path)',
 }
 KERNEL['C17'] = {
